@@ -62,7 +62,10 @@ Definition clip_area (subj cl : list pt) : Q := poly_area (clip subj cl).
    lowest terms first ( Qred q == q ): Q arithmetic never reduces by itself and the numerals of
    a moved, rotated box would otherwise grow to hundreds of digits. *)
 Definition pt_red (p : pt) : pt := (Qred (fst p), Qred (snd p)).
-Definition rcorners (b : box) : list pt := map pt_red (corners b).
+Definition box_red (b : box) : box :=
+  mkBox (Qred (bx b)) (Qred (by_ b)) (Qred (bz b)) (Qred (bc b)) (Qred (bs b))
+        (Qred (bw b)) (Qred (bl b)) (Qred (bh b)).
+Definition rcorners (b : box) : list pt := map pt_red (corners (box_red b)).
 Definition inter_clip (e g : box) : Q := clip_area (rcorners e) (rcorners g).
 (* = plane_sq_box e g up to == (Proofs/ClipProofs.v, plane_sq_fast_correct) *)
 Definition plane_sq_fast (e g : box) : option Q := plane_sq (rcorners e) (rcorners g).
@@ -103,6 +106,22 @@ Definition check_plane_lr (g : box) (ordered : bool) (l r : nat) : bool :=
   | None => false
   | Some lr => nat_pair_eqb lr (l, r) || (negb ordered && nat_pair_eqb lr (r, l))
   end.
+
+(* everything about one ordered pair at once (the corner lists and the clip are computed once) *)
+Definition check_scores (e g : box) (ordered : bool) (cd pd i2 i3 : Q) (gl gr el er : nat) : bool :=
+  let e := box_red e in let g := box_red g in
+  let i := inter_clip e g in
+  check_center e g cd && check_plane e g pd &&
+  check_plane_lr g ordered gl gr && check_plane_lr g ordered el er &&
+  Qclose_abs tol9 (iou i (area_rect e) (area_rect g)) i2 &&
+  Qclose_abs tol9 (iou3 i (height_intersection e g) (volume e) (volume g)) i3.
+(* the swapped pair: centre distance and the two IoUs *)
+Definition check_swapped (e g : box) (cd i2 i3 : Q) : bool :=
+  let e := box_red e in let g := box_red g in
+  let i := inter_clip g e in
+  check_center g e cd &&
+  Qclose_abs tol9 (iou i (area_rect g) (area_rect e)) i2 &&
+  Qclose_abs tol9 (iou3 i (height_intersection g e) (volume g) (volume e)) i3.
 
 Definition check_iou2 (e g : box) (v : Q) : bool := Qclose_abs tol9 (iou2_clip e g) v.
 Definition check_iou3 (e g : box) (v : Q) : bool := Qclose_abs tol9 (iou3_clip e g) v.
